@@ -589,6 +589,13 @@ func (env *cenv) call(e *CExpr) cval {
 			return env.boolv("true")
 		}
 		return env.boolv("false")
+	case "zero":
+		// zero(T): the zero value of type T (for an opaque library struct: its distinguished zero constant)
+		srt, t := env.sortOfTypeName(args[0].Name)
+		if t == nil {
+			env.fail("zero(%s): unknown type", args[0].Name)
+		}
+		return cval{term: g.s.zero(t), typ: t, sort: srt}
 	case "quo":
 		// quo(a, b): Go integer division (truncated toward zero)
 		a := env.eval(args[0])
